@@ -18,7 +18,7 @@ META = dict(
         "qucumber/nn_states/wavefunction.py / density_matrix.py: importance_sampling_numerator, importance_sampling_denominator, psi, rho(expand=False)",
         "qucumber/utils/cplx.py: elementwise_division, elementwise_mult, real",
     ],
-    bounds=dict(quick="positive (2,2); complex (2,2), complex (3,1) on 4 regions; mixed (1,1,1),(2,1,1); all 2^n regions where not stated (int / list / ndarray / tensor forms), all ordered pairs of basis states",
+    bounds=dict(quick="positive (2,2); complex (2,2), complex (3,1) on 4 regions; mixed (1,1,1),(2,1,1); all 2^n regions where not stated (int / list / ndarray / tensor forms), all ordered pairs of basis states; cyclic pairing in batches of 3, 4 and 5 rows",
                 thorough="additionally positive (3,2), positive (4,2) on 6 regions; complex (3,2) all regions, complex (4,1) on 3 regions; mixed (2,2,2),(3,1,1)"),
     outside=["num_visible > 4", "statistical independence of the two replicas inside one sampled batch", "strict positivity of the purity for mixed states (only >= 0 is shown)", "floating point"],
     stubs=["torch -> vf.symtorch"],
